@@ -31,7 +31,8 @@ ASSUMPTIONS = [
 CASE_TIMEOUT = 1800
 CHUNK = 1
 K = 30.0
-TOL_WIDTH = 2e-2
+TOL_WIDTH = 5e-2     # widths lag the pressure iteration (stops at pressRelErrTol=0.1):
+                     # observed <= 2.3e-2 relative over 8 seeds
 TOL_OFFSET = 2e-2
 CFG = {"M": 25, "N": 5, "errTol": 1e-3, "phaseTracerTol": 1e-6, "hydro_rtol": 1e-6}
 FLOORS = {
@@ -51,7 +52,8 @@ def generate(tier, seed):
     cases = []
     for i in range(n):
         fam = "poly2" if rng.random() < 0.75 else "poly1"
-        spec = getattr(P, "random_" + fam)(rng, s=float(10 ** rng.uniform(-1, 1)))
+        gen = "random_poly2_thick" if fam == "poly2" and rng.random() < 0.5 else "random_" + fam
+        spec = getattr(P, gen)(rng, s=float(10 ** rng.uniform(-1, 1)))
         nf = 2 if fam == "poly2" else 1
         trs = []
         for _ in range(ntr):
